@@ -999,7 +999,7 @@ func main() {
 	r.Rule("random transaction programs (3..42 steps of put / get / delete / create-bucket / create-if-not-exists / descend / delete-bucket / cursor first-next-last-prev + ForEach / seek+next / next-sequence / set-sequence / cursor-delete / cross-namespace put) over arbitrary byte keys (0x00/0xff runs, shared prefixes, random, empty) and values (empty..300 bytes), executed in lock-step on the real walletdb/bdb database and a nested-map model, with outcome drawn from {commit, error, panic, read-only transaction attempting every mutation, manual rollback, manual commit}; every return value and documented error class is compared per step, the whole tree after every outcome and after close+reopen (1 in 10). Concurrent phase: writers commit n keys := unique v in one Update (1 in 7 fails half-way), readers must see n equal values per read transaction, only committed values, in commit order. (d) top-level buckets: create / fetch / delete / re-create / read and write through freshly looked-up handles inside committed and rolled-back transactions, checked inside the transaction after every step and in a later one. (c) batches: 2..8 goroutines call walletdb.Batch simultaneously for several rounds, 1 in 2..5 functions failing after its writes (bbolt then rolls the shared transaction back and re-runs the siblings): every acknowledged Batch has all its keys with its values right after and after reopen, every failed one has none. Non-trivial = program with > 3 logged steps; distinct = distinct step logs.")
 	r.Trusted("go.etcd.io/bbolt as the engine below the adapter under test")
 	r.Assume("DeleteNestedBucket with an empty name: any error is accepted (bbolt answers differently depending on bucket contents)", "CreateBucketIfNotExists on an existing bucket inside a read-only transaction is not asserted", "empty values are compared by length, never nil-vs-empty")
-	dir, _ := os.MkdirTemp("", "c11")
+	dir := r.TempDir("c11")
 	defer os.RemoveAll(dir)
 	r.Parallel("programs", r.N(60, 2500), evid.Workers(), func(i int, cs int64) { sequential(r, dir, i, cs) })
 	r.Parallel("concurrent", r.N(12, 300), 4, func(i int, cs int64) { concurrent(r, dir, i, cs) })
